@@ -6,6 +6,8 @@ CONSTANTS
   Configs <- HoldConfigs
   Lite = TRUE
   Hold = TRUE
+  Burst = FALSE
+  DecidedInLoop = TRUE
   DrainAll = TRUE
   RejectChecksSlot = TRUE
 VIEW AbsView
